@@ -175,6 +175,41 @@ def run(ctx):
            'all_in_positions_liquidated': sum(1 for i, s in stats.items() if by[i]['p'].get('allin') and s['liq']),
            'patterns': {p: sum(1 for i in stats if by[i]['pattern'] == p) for p in mt.LIQ_PATTERNS}}
     ctx.log("two-pass: %s %.0fs" % (agg, time.time() - t0))
+    # ---- two routes in one isolated-margin session: a liquidation must leave the other symbol alone
+    t0 = time.time()
+    pitems = []
+    for i in range(ctx.pick(16, 192)):
+        r = random.Random(ctx.seed * 313 + i)
+        fast = bool(i & 1)
+        pp = dict(victim='BTC-USDT', follower='ETH-USDT', follower_first=bool(i & 2), react=bool(i & 4),
+                  side=1 if i & 8 else -1, qv=r.choice([1, 2]), P0=r.choice([200, 1000]), how=r.choice(['touch', 'jump']),
+                  tf=r.choice([1, 3]) if fast else 1)
+        pitems.append(dict(id=500000 + i, p=pp, fast=fast,
+                           cfg=futures_config(lev=r.choice([2, 5, 10, 25]), fee=r.choice([0.0, 0.001]), mode='isolated',
+                                              balance=10000)))
+    pres = run_isolated(mt.run_liq_pair, pitems)
+    ptraces, pstats = [], {}
+    for it, r in zip(pitems, pres):
+        if r[0] == 'EXC':
+            raise Machinery("two-route liquidation driver failed: %s" % r[1])
+        ptraces += r[0]
+        pstats[it['id']] = r[1]
+    pverd, presults = tlc.validate_traces("TraceMatching", "TraceMatching.cfg", ptraces, ctx.sub("tv-pair"), parts=8)
+    pby = {}
+    for it in pitems:
+        pby[it['id'] * 4] = pby[it['id'] * 4 + 1] = it
+    npb = c02.report(ctx, pverd, lambda tid: {'kind': 'pair', 'item': pby[tid]}, "two-routes")
+    for it in pitems:
+        if pstats[it['id']]['liq']:
+            ctx.nontrivial.add(('pair',) + tuple(sorted((k, str(v)) for k, v in it['p'].items())) + (it['fast'],))
+    ctx.evaluations += len(pitems)
+    pair_agg = {'runs': len(pitems), 'runs_with_a_liquidation': sum(1 for s in pstats.values() if s['liq']),
+                'follower_market_orders_(entry, close-event exit, end of run)': sum(s['follower_markets'] for s in pstats.values()),
+                'followers_closed_at_the_end': sum(1 for s in pstats.values() if s['follower_qty_end'] == 0),
+                'violating_clauses': npb, 'runs_ending_in_a_jesse_exception': sum(1 for s in pstats.values() if s['exc'])}
+    ctx.log("two-routes: %s %.0fs" % (pair_agg, time.time() - t0))
+    samples.append({'kind': 'two routes, isolated: follower trace around the victim\'s liquidation',
+                    'item': pitems[4], 'events': [e for e in ptraces[9]['ev'] if e['k'] in ('xliq', 'xliq_end', 'submit', 'exec', 'cancel')][-10:]})
     for name, fut in jobs.items():
         r = fut.result()
         ctx.add_tlc(r, name)
@@ -182,8 +217,8 @@ def run(ctx):
             raise Machinery("%s: the model violates %s\n%s" % (name, r.violation["name"], r.violation["trace"][:3000]))
     pool.shutdown()
     ctx.coverage.update({
-        "traces_validated_against_impl": len(traces) + len(rtraces), "position_property_reads": n_reads,
-        "two_pass": agg, "samples": samples,
+        "traces_validated_against_impl": len(traces) + len(rtraces) + len(ptraces), "position_property_reads": n_reads,
+        "two_pass": agg, "two_routes": pair_agg, "samples": samples,
         "rule": "two-pass run = (side, leverage, margin mode, account type, approach pattern, simulator, averaged entry, "
                 "protective stop, timeframe); non-trivial when at least one liquidation check saw an open position; "
                 "distinct by that tuple. Direct reads distinct by (leverage, side, mode, averaged).",
@@ -199,6 +234,14 @@ def replay(ctx, rp):
         print("run:", res[0][1])
         verdicts, _ = tlc.validate_traces("TraceMatching", "TraceMatching.cfg", [res[0][0]], ctx.scratch, parts=1)
         print("replay verdict:", verdicts[1])
+        c02.report(ctx, verdicts, lambda tid: p, "replay")
+    elif p['kind'] == 'pair':
+        res = run_isolated(mt.run_liq_pair, [dict(p['item'], id=1)])
+        if res[0][0] == 'EXC':
+            raise Machinery(str(res[0][1]))
+        print("run:", res[0][1])
+        verdicts, _ = tlc.validate_traces("TraceMatching", "TraceMatching.cfg", res[0][0], ctx.scratch, parts=1)
+        print("replay verdict:", sorted(verdicts.items()))
         c02.report(ctx, verdicts, lambda tid: p, "replay")
     elif p['kind'] == 'reads':
         g = p['group']
